@@ -115,20 +115,34 @@ Qed.
 Lemma unle_le_small k n : n < 2 ^ (8 * N.of_nat k) -> unle (le k n) = n.
 Proof. intro H. rewrite unle_le. now apply N.mod_small. Qed.
 
-(* list helpers on N indices.  The guards keep [N.to_nat] away from data-dependent huge numbers when the
-   model is executed (a 2^64 offset read from a hostile archive must not be converted to unary). *)
-Definition take (n : N) (bs : bytes) : bytes := if len bs <=? n then bs else firstn (N.to_nat n) bs.
-Definition drop (n : N) (bs : bytes) : bytes := if len bs <=? n then [] else skipn (N.to_nat n) bs.
+(* list helpers on N indices: structural on the list, so that executing the model never converts a
+   data-dependent huge N (a 2^64 offset read from a hostile archive) to unary and costs O(min(n, length)). *)
+Fixpoint take (n : N) (bs : bytes) {struct bs} : bytes :=
+  match bs with
+  | [] => []
+  | b :: r => if n =? 0 then [] else b :: take (N.pred n) r
+  end.
+Fixpoint drop (n : N) (bs : bytes) {struct bs} : bytes :=
+  match bs with
+  | [] => []
+  | b :: r => if n =? 0 then bs else drop (N.pred n) r
+  end.
 
 Lemma take_firstn n bs : take n bs = firstn (N.to_nat n) bs.
 Proof.
-  unfold take, len. destruct (N.of_nat (length bs) <=? n) eqn:E; [|reflexivity].
-  symmetry. apply firstn_all2. lia.
+  revert n; induction bs as [|b r IH]; intro n; cbn [take].
+  - now rewrite firstn_nil.
+  - destruct (n =? 0) eqn:E.
+    + assert (n = 0) as -> by lia. reflexivity.
+    + replace (N.to_nat n) with (S (N.to_nat (N.pred n))) by lia. cbn [firstn]. now rewrite IH.
 Qed.
 Lemma drop_skipn n bs : drop n bs = skipn (N.to_nat n) bs.
 Proof.
-  unfold drop, len. destruct (N.of_nat (length bs) <=? n) eqn:E; [|reflexivity].
-  symmetry. apply skipn_all2. lia.
+  revert n; induction bs as [|b r IH]; intro n; cbn [drop].
+  - now rewrite skipn_nil.
+  - destruct (n =? 0) eqn:E.
+    + assert (n = 0) as -> by lia. reflexivity.
+    + replace (N.to_nat n) with (S (N.to_nat (N.pred n))) by lia. cbn [skipn]. now rewrite IH.
 Qed.
 
 Lemma len_app a b : len (a ++ b) = len a + len b.
